@@ -1,5 +1,6 @@
 import MemcVerif.Model.Conn
 import MemcVerif.Model.Policy
+import MemcVerif.Model.Server
 /-!
 # Line-protocol driver: runs the executable model on the operations the harness ran on the real code.
 One input line, one output line.
@@ -15,6 +16,7 @@ structure DState where
   cbuf : Bytes := []
   acc : Bytes := []
   pol : Option Policy := none
+  srv : Srv := Srv.init 1
 
 def insertSorted (x : String × String) : List (String × String) → List (String × String)
   | [] => [x]
@@ -97,6 +99,24 @@ def step (d : DState) (line : String) : DState × String :=
       ({ d with store := s', cst := st', cbuf := buf' }, "dec " ++ " ".intercalate acc.reverse)
     | none => (d, "bad-op")
   | ["codec"] => ({ d with cst := .none, cbuf := [] }, "ok")
+  | ["srv", l, _] =>
+    match l.toNat? with
+    | some k => ({ d with srv := Srv.init k }, "ok")
+    | none => (d, "bad-op")
+  | ["open", i] =>
+    match i.toNat? with
+    | some k => ({ d with srv := d.srv.step (.connect k) }, "ok")
+    | none => (d, "bad-op")
+  | ["end", i, _] =>
+    match i.toNat? with
+    | some k => ({ d with srv := d.srv.step (.finish k) }, "ok")
+    | none => (d, "bad-op")
+  | "idle" :: keep =>
+    let ks := keep.filterMap (·.toNat?)
+    let victims := d.srv.active.filter (fun i => !ks.contains i)
+    ({ d with srv := victims.foldl (fun s i => s.step (.finish i)) d.srv }, "ok")
+  | ["probe"] =>
+    (d, ("served " ++ " ".intercalate ((d.srv.served.toArray.qsort (· < ·)).toList.map toString)).trimAsciiEnd.toString)
   | "evict" :: ks =>
     match d.pol with
     | none => (d, "bad-op")
